@@ -11,6 +11,7 @@ import shutil
 import sys
 
 from framework import Check, Outcome, main
+import simcore
 from simcore import Plan, Rng, derive_seed, count_mutations, file_sha, log_hash, run_sim, tool
 from states import make_state
 from battery import DEBUGFS_RO_CMDS, INVOCATIONS, ro_argv
@@ -124,7 +125,7 @@ class C13(Check):
             for f in os.listdir(wd):
                 if f.startswith("out."):
                     os.unlink(os.path.join(wd, f))
-            shutil.rmtree(wd + "/rdump", ignore_errors=True)
+            simcore.rmtree(wd + "/rdump")
         o.stats["state." + spec["state"]] += 1
         o.trace = log_hash([]) if not traces else __import__("hashlib").sha256("".join(traces).encode()).hexdigest()
         o.sample = {"state": spec["state"], "features": feats, "bs": st["cfg"]["bs"], "details": _brief(st["details"]),
